@@ -89,7 +89,7 @@ type seqScript struct {
 // ---------------------------------------------------------------- trace records
 
 type trEv struct {
-	H string `json:"h"` // A = OnAtomicDeletion, D = OnDeletion
+	H string `json:"h"` // A = OnAtomicDeletion, D = OnDeletion, L = marker: a loader was invoked here
 	K int    `json:"k"`
 	V int    `json:"v"`
 	C string `json:"c"`
@@ -151,6 +151,8 @@ type trRec struct {
 	TgtEst int      `json:"tgtest"`
 	TgtNow int64    `json:"tgtnow"`
 	TgtMax int64    `json:"tgtmax"`
+	Infl   int      `json:"inflight"` // in-flight load records left behind when the call returned (must be 0)
+	Hang   int      `json:"hang"` // 1 = the call did not return within the watchdog limit (the script is abandoned)
 }
 
 // ---------------------------------------------------------------- manual clock
@@ -372,10 +374,12 @@ func (l seqLoader) outcome(k int) (int, error) {
 }
 func (l seqLoader) Load(ctx context.Context, k int) (int, error) {
 	l.r.loads = append(l.r.loads, trLoad{"Load", []int{k}, []int{}})
+	l.r.ev = append(l.r.ev, trEv{"L", -1, 0, "L"})
 	return l.outcome(k)
 }
 func (l seqLoader) Reload(ctx context.Context, k int, old int) (int, error) {
 	l.r.loads = append(l.r.loads, trLoad{"Reload", []int{k}, []int{old}})
+	l.r.ev = append(l.r.ev, trEv{"L", -1, 0, "L"})
 	return l.outcome(k)
 }
 
@@ -403,6 +407,7 @@ func (l seqBulkLoader) BulkLoad(ctx context.Context, keys []int) (map[int]int, e
 	ks := append([]int{}, keys...)
 	sort.Ints(ks)
 	l.r.loads = append(l.r.loads, trLoad{"BulkLoad", ks, []int{}})
+	l.r.ev = append(l.r.ev, trEv{"L", -1, 0, "L"})
 	return l.outcome()
 }
 func (l seqBulkLoader) BulkReload(ctx context.Context, keys []int, olds []int) (map[int]int, error) {
@@ -422,6 +427,7 @@ func (l seqBulkLoader) BulkReload(ctx context.Context, keys []int, olds []int) (
 		ks[i], os_[i] = kvs[i].k, kvs[i].o
 	}
 	l.r.loads = append(l.r.loads, trLoad{"BulkReload", ks, os_})
+	l.r.ev = append(l.r.ev, trEv{"L", -1, 0, "L"})
 	return l.outcome()
 }
 
@@ -677,6 +683,9 @@ func (r *seqRun) step(i int, op seqOp) (rec trRec) {
 	rec.Now = r.toUnits(r.clk.NowNano())
 	rec.Proj = projOf(r, c)
 	rec.Est = c.EstimatedSize()
+	if g := c.cache.singleflight; g.isInitialized.Load() {
+		rec.Infl = g.calls.Size()
+	}
 	// the projection itself must not have produced deletion events
 	if len(r.ev) != len(rec.Ev) {
 		rec.Ev = append([]trEv{}, r.ev...)
@@ -757,10 +766,33 @@ func runSeqScript(sc seqScript, w *bufio.Writer) {
 	hdr.Proj = projOf(r, r.c)
 	_ = enc.Encode(hdr)
 	for i, op := range sc.Ops {
-		rec := r.step(i, op)
-		_ = enc.Encode(rec)
+		// every call runs to completion before the next one starts; the helper goroutine only
+		// exists so that a call that never returns is reported instead of wedging the driver
+		done := make(chan trRec, 1)
+		go func() { done <- r.step(i, op) }()
+		select {
+		case rec := <-done:
+			_ = enc.Encode(rec)
+			if rec.Infl != 0 {
+				return // every later load of those keys would block forever; the leak itself is the finding
+			}
+		case <-time.After(seqWatchdog):
+			rec := trRec{T: "op", I: i, Op: op, Val: -1, Hang: 1, Res: []trKV{}, Ents: []trEnt{}, RRs: []trRR{}, Tgt: []trEnt{},
+				Cbs: []trCb{}, Loads: []trLoad{}, Ev: []trEv{}, St: []int64{0, 0, 0, 0, 0, 0}, Proj: []trEnt{}}
+			if rec.Op.Ks == nil {
+				rec.Op.Ks = []int{}
+			}
+			if rec.Op.Supply == nil {
+				rec.Op.Supply = []int{}
+			}
+			_ = enc.Encode(rec)
+			_ = w.Flush()
+			return
+		}
 	}
 }
+
+const seqWatchdog = 10 * time.Second
 
 // TestVerifSeq is the entry point used by /verif/bin/check.
 //
